@@ -7,6 +7,7 @@ require github.com/SAP/go-dblib v0.0.0
 require (
 	github.com/hashicorp/errwrap v1.0.0 // indirect
 	github.com/hashicorp/go-multierror v1.1.1 // indirect
+	github.com/hashicorp/go-version v1.7.0 // indirect
 )
 
 replace github.com/SAP/go-dblib => /repo
